@@ -75,7 +75,7 @@ def _plain(v):
 NARROW = sched.code_objects(BaseParser.resolve_forward_refs, getattr(BaseParser, '_resolve_forward_refs', None))
 
 
-def race(V, build, calls, tag, watched=None, preemptions=None):
+def race(V, build, calls, tag, watched=None, preemptions=None, post=None):
     """build() -> namespace of a fresh system; calls = [f(ns) -> thunk result]; concurrent vs alone"""
     with V.notrace():
         systems = [build() for _ in range(len(calls) + 1)]
@@ -84,6 +84,11 @@ def race(V, build, calls, tag, watched=None, preemptions=None):
     thunks = [(lambda c=c: outcome(lambda: c(ns))) for c in calls]
     results, trace = sched.run_schedule(V, thunks, watched or WATCHED, preemptions or V.T(1, 2))
     got = [r[1] if r and r[0] == 'ok' else ('crash', 'worker', repr(r)) for r in results]
+    if post is not None:
+        # what both threads did must still be in effect once they have finished
+        after, want_after = outcome(lambda: post[0](ns)), post[1]
+        V.check(after == want_after, 'concurrent:%s:lost-after-both-finished' % tag,
+                lambda: 'schedule %r: after both threads finished %r, expected %r (threads: %r)' % (trace, after, want_after, got))
     for m in systems:
         sys.modules.pop(getattr(m.get('__mod__'), '__name__', ''), None) if isinstance(m, dict) else None
     V.check(not any(t[0] == 'deadlock' for t in trace), 'concurrent:deadlock:' + tag, lambda: 'schedule %r' % (trace,))
@@ -255,7 +260,9 @@ def register_vs_convert(V):
         elif variant == 'register-vs-builtin':
             race(V, build_s2, [lambda ns: reg_and_convert(ns, 'Money', 'm'), convert_builtin], 'registry')
         elif variant == 'register-vs-register':
-            race(V, build_s2, [lambda ns: reg_and_convert(ns, 'Money', 'm'), lambda ns: reg_and_convert(ns, 'Other', 'o')], 'registry')
+            race(V, build_s2, [lambda ns: reg_and_convert(ns, 'Money', 'm'), lambda ns: reg_and_convert(ns, 'Other', 'o')], 'registry',
+                 post=(lambda ns: [utype.type_transform(5, ns['Money']).v, utype.type_transform(5, ns['Other']).v],
+                       ('ok', [('m', 5), ('o', 5)])))
         else:
             def sub(ns):
                 try:
